@@ -58,6 +58,7 @@ with stmt :=
 | JDoWhile (body : stmt) (e : expr)
 | JFor (init : option expr) (test : option expr) (upd : option expr) (body : stmt)
 | JForIn (x : str) (o : expr) (body : stmt)
+| JForInSet (t : expr) (p : str) (o : expr) (body : stmt)   (* for (t.p in o) body: the target is evaluated anew for every property (12.6.4 step 6.b / 7.b) *)
 | JBreak (l : label)
 | JContinue (l : label)
 | JReturn (e : option expr)
@@ -413,6 +414,7 @@ Fixpoint hoist_stmt (s : stmt) : list (str * option (list str * list stmt)) :=
   | JIf _ a b => hoist_stmt a ++ match b with Some b => hoist_stmt b | None => [] end
   | JWhile _ b | JDoWhile b _ | JFor _ _ _ b => hoist_stmt b
   | JForIn x _ b => (x, None) :: hoist_stmt b
+  | JForInSet _ _ _ b => hoist_stmt b
   | JLabelled _ s => hoist_stmt s
   | JWith _ s => hoist_stmt s
   | JTry b c f => hl b ++ match c with Some (_, c) => hl c | None => [] end
@@ -432,7 +434,7 @@ Inductive task :=
 | TConstruct (f : val) (args : list val)
 | TLoop (c : ctx) (labs : list label) (kind : Z) (test upd : option expr) (body : stmt) (V : option val)
        (* kind 0: test, body, update (while/for); the do-while enters at the body (kind 1) *)
-| TForIn (c : ctx) (labs : list label) (x : str) (keys : list str) (obj : nat) (body : stmt) (V : option val)
+| TForIn (c : ctx) (labs : list label) (x : str) (tg : option (expr * str)) (keys : list str) (obj : nat) (body : stmt) (V : option val)
 | TCases (c : ctx) (v : val) (cases : list (option expr * list stmt)) (rest : list (option expr * list stmt)).
 
 Inductive answer :=
@@ -756,7 +758,13 @@ Definition step (t : task) (s : state) : R :=
                       | None => declare_var s3 ne s_arguments (Some (WRef al))
                       end in
             let s5 := inst_vars s4 ne ds in
-            match self (TList (mkctx ne ne (to_this this)) body) s5 with
+            (* 10.4.3 step 3: a primitive thisArg becomes ToObject(thisArg), a fresh wrapper for every call
+               (modelled as a plain object: the generator does not reach the wrapper's prototype or value) *)
+            let '(s5, th) := match this with
+                             | WUndef | WNull | WRef _ => (s5, to_this this)
+                             | _ => let '(sx, bl) := new_obj s5 (mkobj [] (Some 1%nat) KObj) in (sx, WRef bl)
+                             end in
+            match self (TList (mkctx ne ne th) body) s5 with
             | Ok s6 (ACompl (QReturn v)) => okv s6 v
             | Ok s6 (ACompl (QNormal _)) => okv s6 WUndef
             | Ok _ _ => Decline          (* break/continue cannot leave a function *)
@@ -845,7 +853,14 @@ Definition step (t : task) (s : state) : R :=
         bindv (self (TExpr c o) s) (fun s1 vo =>
           match vo with
           | WUndef | WNull => okc s1 (QNormal None)
-          | WRef l => self (TForIn c (0%nat :: labs) x (forin_keys chain_fuel s1 l []) l body None) s1
+          | WRef l => self (TForIn c (0%nat :: labs) x None (forin_keys chain_fuel s1 l []) l body None) s1
+          | _ => Decline
+          end)
+    | JForInSet t p o body =>
+        bindv (self (TExpr c o) s) (fun s1 vo =>
+          match vo with
+          | WUndef | WNull => okc s1 (QNormal None)
+          | WRef l => self (TForIn c (0%nat :: labs) [] (Some (t, p)) (forin_keys chain_fuel s1 l []) l body None) s1
           | _ => Decline
           end)
     | JBreak l => okc s (QBreak l None)
@@ -918,21 +933,38 @@ Definition step (t : task) (s : state) : R :=
                     if truthy v then bindc (self (TStmt c [] body) s1) after_body else okc s1 (QNormal V))
       | None => bindc (self (TStmt c [] body) s) after_body
       end
-  | TForIn c labs x keys ol body V =>
+  | TForIn c labs x tg keys ol body V =>
     match keys with
     | [] => okc s (QNormal V)
     | k :: ks =>
         (* a property deleted before it is visited is not visited (12.6.4) *)
-        if negb (hasp s ol k) then self (TForIn c labs x ks ol body V) s else
-        let s1 := assign_var chain_fuel s (c_env c) x (WStr k) in
-        bindc (self (TStmt c [] body) s1) (fun s2 cm =>
-          let V' := updv V cm in
-          match cm with
-          | QNormal _ => self (TForIn c labs x ks ol body V') s2
-          | QBreak l _ => if mem l labs then okc s2 (QNormal V') else okc s2 cm
-          | QContinue l _ => if mem l labs then self (TForIn c labs x ks ol body V') s2 else okc s2 cm
-          | QReturn _ => okc s2 cm
-          end)
+        if negb (hasp s ol k) then self (TForIn c labs x tg ks ol body V) s else
+        let go (s1 : state) :=
+          bindc (self (TStmt c [] body) s1) (fun s2 cm =>
+            let V' := updv V cm in
+            match cm with
+            | QNormal _ => self (TForIn c labs x tg ks ol body V') s2
+            | QBreak l _ => if mem l labs then okc s2 (QNormal V') else okc s2 cm
+            | QContinue l _ => if mem l labs then self (TForIn c labs x tg ks ol body V') s2 else okc s2 cm
+            | QReturn _ => okc s2 cm
+            end) in
+        match tg with
+        | None => go (assign_var chain_fuel s (c_env c) x (WStr k))
+        | Some (t, p) =>
+            (* the left-hand side is evaluated for this property, then PutValue *)
+            bindv (self (TExpr c t) s) (fun s1 vt =>
+              match vt with
+              | WRef l => match get_obj s1 l with
+                          | Some ob => match o_kind ob with
+                                       | KObj | KFun _ _ _ => go (putp s1 l p (WStr k))
+                                       | _ => Decline
+                                       end
+                          | None => Decline
+                          end
+              | WUndef | WNull => type_error s1
+              | _ => Decline
+              end)
+        end
     end
   | TCases c v all rest =>
     (* 12.11: search the clauses in order with ===; if none matches run from default *)
@@ -972,7 +1004,7 @@ Fixpoint jumps_stmt (s : stmt) : bool :=
   | JBreak _ | JContinue _ => true
   | JBlock l => jl l
   | JIf _ a b => jumps_stmt a || match b with Some b => jumps_stmt b | None => false end
-  | JWhile _ b | JDoWhile b _ | JFor _ _ _ b | JForIn _ _ b | JLabelled _ b | JWith _ b => jumps_stmt b
+  | JWhile _ b | JDoWhile b _ | JFor _ _ _ b | JForIn _ _ b | JForInSet _ _ _ b | JLabelled _ b | JWith _ b => jumps_stmt b
   | JTry b c f => jl b || match c with Some (_, c) => jl c | None => false end
                        || match f with Some f => jl f | None => false end
   | JSwitch _ cs => jc cs
